@@ -14,7 +14,7 @@ MUTANTS = {
         ("encoder_omits_crlf_before_data", [("sansio/multipart.py", "return b\"\\r\\n\" + event.data", "return event.data")]),
         ("parser_decodes_latin1", [("formparser.py", "return \"utf-8\"", "return \"latin-1\"")]),
         ("urlencode_safe_plus", [("urls.py", "safe=\"!$'()*,/:;?@\"", "safe=\"!$'()*,/:;?@+\"")]),
-        ("percent22_not_decoded", [("http.py", ".replace(\"%22\", '\"')", "")]),
+        ("iter_data_drops_repeated_names", [("test.py", "yield from data.items(multi=True)", "yield from data.items()")]),
     ],
     "C03": [
         ("dynamic_sorted_reverse", [("routing/matcher.py", "state.dynamic.sort(key=lambda entry: entry[0].weight)", "state.dynamic.sort(key=lambda entry: entry[0].weight, reverse=True)")]),
@@ -35,7 +35,7 @@ MUTANTS = {
         ("passthrough_callbacks_dropped", [("wrappers/response.py", "            if self._on_close:", "            if False:")]),
     ],
     "C06": [
-        ("quote_stops_escaping_backslash", [("http.py", "value = value.replace(\"\\\\\", \"\\\\\\\\\").replace('\"', '\\\\\"')", "value = value.replace('\"', '\\\\\"')")]),
+        ("quote_stops_escaping_backslash", [("http.py", "value_str = value_str.replace(\"\\\\\", \"\\\\\\\\\").replace('\"', '\\\\\"')", "value_str = value_str.replace('\"', '\\\\\"')")]),
         ("dump_age_truncates_days", [("http.py", "age = int(age.total_seconds())", "age = age.seconds")]),
         ("range_to_header_off_by_one", [("datastructures/range.py", "ranges.append(f\"{begin}-{end - 1}\")", "ranges.append(f\"{begin}-{end}\")")]),
     ],
@@ -46,7 +46,7 @@ MUTANTS = {
     ],
     "C08": [
         ("multidict_copy_shares_lists", [("datastructures/structures.py", "        return self.__class__(self)\n\n    def deepcopy", "        c = self.__class__()\n        dict.update(c, dict(dict.items(self)))\n        return c\n\n    def deepcopy")]),
-        ("headers_set_keeps_later_duplicates", [("datastructures/headers.py", "        self._list[idx + 1 :] = [t for t in listiter if t[0].lower() != ikey]", "        pass")]),
+        ("headers_set_keeps_later_duplicates", [("datastructures/headers.py", "        self._list[idx + 1 :] = [t for t in iter_list if t[0].lower() != ikey]", "        pass")]),
         ("immutable_multidict_loses_setlist", [("datastructures/mixins.py", "    def setlist(self, key: t.Any, new_list: t.Any) -> t.NoReturn:\n        _immutable_error(self)", "    def _setlist_disabled(self, key: t.Any, new_list: t.Any) -> t.NoReturn:\n        _immutable_error(self)")]),
         ("headerset_discard_noop_on_update", [("datastructures/structures.py", "        for idx, item in enumerate(self._headers):\n            if item.lower() == key:", "        for idx, item in enumerate(self._headers):\n            if item == header:")]),
     ],
@@ -71,8 +71,9 @@ MUTANTS = {
     ],
     "C12": [
         ("redirect_query_dropped", [("routing/map.py", "        if query_args:\n            query_str = self.encode_query_args(query_args)", "        if False:\n            query_str = self.encode_query_args(query_args)")]),
-        ("path_part_keeps_double_slash", [("routing/map.py", "path_part = f\"/{path_info.lstrip('/')}\" if path_info else \"\"", "path_part = path_info if path_info else \"\"")]),
-        ("redirect_uses_http_always", [("routing/map.py", "scheme = self.url_scheme or \"http\"\n        host = self.get_host(\"\")", "scheme = \"http\"\n        host = self.get_host(\"\")")]),
+        ("redirect_path_not_lstripped", [("routing/map.py", "path = \"/\".join((self.script_name.strip(\"/\"), path_info.lstrip(\"/\")))\n        return urlunsplit((scheme, host, path, query_str, None))", "path = self.script_name.rstrip(\"/\") + path_info\n        return urlunsplit((scheme, host, path, query_str, None))")]),
+        ("redirect_uses_http_always", [("routing/map.py", "scheme = self.url_scheme or \"http\"\n        host = self.get_host(domain_part)", "scheme = \"http\"\n        host = self.get_host(domain_part)")]),
+        ("redirect_drops_script_root", [("routing/map.py", "path = \"/\".join((self.script_name.strip(\"/\"), path_info.lstrip(\"/\")))", "path = \"/\" + path_info.lstrip(\"/\")")]),
     ],
     "C13": [
         ("comma_removed_from_escape_class", [("http.py", "_cookie_slash_re = re.compile(rb\"[\\x00-\\x1f\\\",;\\\\\\x7f-\\xff]\", re.A)", "_cookie_slash_re = re.compile(rb\"[\\x00-\\x1f\\\";\\\\\\x7f-\\xff]\", re.A)")]),
@@ -81,8 +82,9 @@ MUTANTS = {
     ],
     "C14": [
         ("dotdot_check_removed", [("security.py", "            or filename == \"..\"\n", "")]),
-        ("startswith_slash_removed", [("security.py", "            or os.path.isabs(filename)\n", "")]),
-        ("secure_filename_keeps_leading_dot", [("utils.py", ".strip(\"._\")", ".strip(\"_\")")]),
+        ("absolute_component_accepted", [("security.py", "            or os.path.isabs(filename)\n            # ntpath.isabs doesn't catch this on Python < 3.11\n            or filename.startswith(\"/\")\n", "")]),
+        ("normpath_after_checks", [("security.py", "        if filename != \"\":\n            filename = posixpath.normpath(filename)\n\n        if (", "        if (")]),
+        ("secure_filename_keeps_leading_dot", [("utils.py", "filename = str(_filename_ascii_strip_re.sub(\"\", \"_\".join(filename.split()))).strip(\n        \"._\"\n    )", "filename = str(_filename_ascii_strip_re.sub(\"\", \"_\".join(filename.split()))).strip(\n        \"_\"\n    )")]),
     ],
     "C15": [
         ("always_unsafe_loses_percent", [("urls.py", "_always_unsafe = bytes((*range(0x21), 0x25, 0x7F)).decode()", "_always_unsafe = bytes((*range(0x21), 0x7F)).decode()")]),
